@@ -85,6 +85,7 @@ WORLDS = {
     "S": "a str naming a local file",
     "R": "a str starting with https:// / http:// / ftp://",
     "O": "an in-memory object",
+    "O2": "an in-memory Mapping / iterable of records that is not literally a dict or list (a tuple, a generator, a MappingProxyType, the Records model)",
 }
 
 
@@ -112,15 +113,26 @@ def _world_eval(t, data, w):
     if o == "call" and callee_name(t) == "isinstance" and len(t[2]) == 2 and t[2][0] == data:
         ty = t[2][1]
         names = [show(x) for x in (ty[1] if op(ty) == "tuple" else (ty,))]
-        kinds = set()
+        verdicts = []
         for n in names:
+            n = n.rsplit(".", 1)[-1]
             if n.endswith("Path") or n.endswith("PurePath"):
-                kinds.add("P")
+                verdicts.append(w == "P")
             elif n == "str":
-                kinds |= {"S", "R"}
+                verdicts.append(w in ("S", "R"))
+            elif n in ("dict", "list", "Dict", "List"):
+                verdicts.append(w == "O")
+            elif n in ("Iterable", "Collection", "Container"):
+                verdicts.append(w in ("S", "R", "O", "O2"))  # strings are iterable collections, too
+            elif n in ("Mapping", "MutableMapping"):
+                verdicts.append(None if w in ("O", "O2") else False)  # some in-memory inputs are mappings, some lists
             else:
-                return None
-        return w in kinds
+                verdicts.append(None)
+        if any(v is True for v in verdicts):
+            return True
+        if all(v is False for v in verdicts):
+            return False
+        return None
     remote = None
     if o == "call" and callee_name(t) == "any" and t[2] and op(t[2][0]) == "comp":
         comp = t[2][0]
@@ -129,7 +141,7 @@ def _world_eval(t, data, w):
     if o == "call" and callee_name(t) == "startswith" and op(t[1]) == "attr" and t[1][1] == data and t[2]:
         remote = t[2][0]
     if remote is not None:
-        if w in ("P", "O"):
+        if w in ("P", "O", "O2"):
             return False
         return w == "R"
     return None
@@ -243,6 +255,15 @@ def d2(cx: Cx, ob: Ob) -> None:
 
     for w, text in WORLDS.items():
         outs = reached[w]
+        if not outs and w == "O2" and any(o_ is not None and o_[0] == "raise" and all(_world_eval(g.a, data, "O2") == g.b for g in ctx_.guards if g.kind == "guard") for o_, ctx_ in s.outcomes()):
+            ob.violate(
+                fn.qualname,
+                fn.where,
+                f"_prepare raises for {text}: the loaders are declared for any Mapping / any iterable of records, and such a collection is now refused before it is looked at - a clash-free one cannot be loaded, a clashing one gives the wrong error",
+                witness="from_extended_prefix_map(tuple_of_records) / from_prefix_map(MappingProxyType(d)): TypeError",
+                detail="object-rejected",
+            )
+            continue
         if not outs:
             if not ob.undecided:
                 ob.violate(fn.qualname, fn.where, f"_prepare has no outcome for {text}", detail=f"missing:{w}")
@@ -940,3 +961,10 @@ def x31(cx: Cx, ob: Ob) -> None:
     curie_join_check(cx, ob, "compress", is_parse_uri_of("uri"), "self.parse_uri(uri, ...)")
     format_curie_check(cx, ob)
     is_uri_check(cx, ob)
+
+
+@obligation("C13-X3", "no memoised derived values (cached_property / lru_cache) on Record, Reference or Converter objects (shared with C05): loaders may be handed Record objects that another converter has already indexed and merged into - a cached view of their name lists makes the new converter differ from one loaded from the equivalent dictionaries", floor=3)
+def x3(cx: Cx, ob: Ob) -> None:
+    from ..rules import cached_derivations
+
+    cached_derivations(cx, ob)
